@@ -3,7 +3,7 @@ package main
 import "regexp"
 
 func init() {
-	register(&propSpec{ID: "C02", SeqScope: Scope{Include: []string{"pkg/mpc/sharing/scheme/", "pkg/mpc/sharing/accessstructures/"}}, MinSeq: 40, MinFuncs: 40, Check: checkC02,
+	register(&propSpec{ID: "C02", Extra: []extraScope{{"linalg", Scope{Include: []string{"pkg/base/mat/", "pkg/base/polynomials/interpolation/"}}, 20}}, SeqScope: Scope{Include: []string{"pkg/mpc/sharing/scheme/", "pkg/mpc/sharing/accessstructures/"}}, MinSeq: 40, MinFuncs: 40, Check: checkC02,
 		Scope: Scope{Include: []string{"pkg/mpc/sharing/accessstructures/", "pkg/mpc/sharing/scheme/"}}})
 	register(&propSpec{ID: "C04", StoreScope: Scope{Include: []string{"pkg/mpc/"}, Exclude: []string{"pkg/mpc/sharing/"}}, MinStores: 50, FrameScope: Scope{Include: []string{"pkg/mpc/"}, Exclude: []string{"pkg/mpc/sharing/", "pkg/mpc/rvole/", "pkg/mpc/session/", "pkg/mpc/zero/przs/"}}, MinFrame: 5, MinFuncs: 150, Check: checkC04,
 		Scope: Scope{Include: []string{"pkg/mpc/", "pkg/network/mpc.go", "pkg/base/errors.go"}, Exclude: []string{"pkg/mpc/sharing/"}}})
@@ -26,15 +26,15 @@ func init() {
 		Scope: Scope{Include: []string{"pkg/"}, KeyRe: regexp.MustCompile(`\.UnmarshalCBOR$|^pkg/base/serde\.`)}})
 	register(&propSpec{ID: "C13", SeqScope: Scope{Include: []string{"pkg/base/curves/"}, Exclude: []string{"pkg/base/curves/impl/rfc9380/"}}, MinSeq: 40, MinFuncs: 60, Check: checkC13,
 		Scope: Scope{Include: []string{"pkg/base/curves/"}, Exclude: []string{"pkg/base/curves/impl/rfc9380/"}}})
-	register(&propSpec{ID: "C15", SeqScope: Scope{Include: []string{"pkg/signatures/"}}, MinSeq: 60, MinFuncs: 30, Check: checkC15,
+	register(&propSpec{ID: "C15", Extra: []extraScope{{"hashing", Scope{Include: []string{"pkg/hashing/"}}, 4}}, SeqScope: Scope{Include: []string{"pkg/signatures/"}}, MinSeq: 60, MinFuncs: 30, Check: checkC15,
 		Scope: Scope{Include: []string{"pkg/signatures/"}}})
-	register(&propSpec{ID: "C16", SeqScope: Scope{Include: []string{"pkg/encryption/"}}, MinSeq: 40, MinFuncs: 20, Check: checkC16,
+	register(&propSpec{ID: "C16", Extra: []extraScope{{"arith", Scope{Include: []string{"pkg/base/nt/modular/", "pkg/base/nt/crt/"}}, 8}}, SeqScope: Scope{Include: []string{"pkg/encryption/"}}, MinSeq: 40, MinFuncs: 20, Check: checkC16,
 		Scope: Scope{Include: []string{"pkg/encryption/", "pkg/base/nt/znstar/"}}})
 	register(&propSpec{ID: "C17", SeqScope: Scope{Include: []string{"pkg/base/nt/"}}, MinSeq: 100, MinFuncs: 40, Check: checkC17,
 		Scope: Scope{Include: []string{"pkg/base/nt/"}}})
 	register(&propSpec{ID: "C18", SeqScope: Scope{Include: []string{"pkg/commitments/"}}, MinSeq: 40, FrameScope: Scope{Include: []string{"pkg/commitments/"}}, MinFrame: 2, MinFuncs: 20, Check: checkC18,
 		Scope: Scope{Include: []string{"pkg/commitments/", "pkg/encryption/", "pkg/base/nt/znstar/"}}})
-	register(&propSpec{ID: "C19", SeqScope: Scope{Include: []string{"pkg/base/curves/impl/points/", "pkg/base/curves/impl/rfc9380/", "pkg/transcripts/"}}, MinSeq: 20, FrameScope: Scope{Include: []string{"pkg/transcripts/", "pkg/hashing/", "pkg/base/curves/impl/rfc9380/"}}, MinFrame: 3, MinFuncs: 15, Check: checkC19,
+	register(&propSpec{ID: "C19", Extra: []extraScope{{"h2c", Scope{Include: []string{"pkg/base/curves/"}, Exclude: []string{"pkg/base/curves/impl/rfc9380/"}, KeyRe: regexp.MustCompile(`Hash|Encode|ClearCofactor|SetRandom|Map`)}, 20}}, SeqScope: Scope{Include: []string{"pkg/base/curves/impl/points/", "pkg/base/curves/impl/rfc9380/", "pkg/transcripts/"}}, MinSeq: 20, FrameScope: Scope{Include: []string{"pkg/transcripts/", "pkg/hashing/", "pkg/base/curves/impl/rfc9380/"}}, MinFrame: 3, MinFuncs: 15, Check: checkC19,
 		Scope: Scope{Include: []string{"pkg/transcripts/", "pkg/base/curves/impl/rfc9380/", "pkg/hashing/"}}})
 }
 
@@ -46,6 +46,11 @@ func genericGuards(r *Run) {
 	r.CheckGuardInventory(r.Prop+".G1", r.Prop+"_guards.json", spec.Scope, spec.MinFuncs)
 	if r.Prop != "C12" {
 		r.CheckCondInventory(r.Prop+".K1", r.Prop+"_conds.json", spec.Scope, spec.MinFuncs/2)
+	}
+	for _, x := range spec.Extra {
+		r.CheckGuardInventory(r.Prop+".G1", r.Prop+"_"+x.Name+"_guards.json", x.Scope, x.Min)
+		r.CheckCondInventory(r.Prop+".K1", r.Prop+"_"+x.Name+"_conds.json", x.Scope, x.Min/2)
+		r.CheckCallSeq(r.Prop+".Q1", r.Prop+"_"+x.Name+"_calls.json", x.Scope, x.Min/2, false)
 	}
 	if len(spec.SeqScope.Include) > 0 {
 		r.CheckCallSeq(r.Prop+".Q1", r.Prop+"_calls.json", spec.SeqScope, spec.MinSeq, r.Prop == "C11" || r.Prop == "C19")
